@@ -31,6 +31,17 @@ theorem agrees_ok_err {ε : Type} (rel : Err → ε → Prop) (n : Num) (f : ε)
 theorem agrees_err_ok {ε : Type} (rel : Err → ε → Prop) (e : Err) (y : Int) :
     Agrees rel (.error e) (.ok y) = False := rfl
 
+/-- the tags that values take in code whose entry arguments are Python ints and that uses `np.int32` /
+    `np.int64` internally (`fp_math.py`) -/
+def T3 (t : Ty) : Prop := t = .py ∨ t = .i32 ∨ t = .i64
+
+/-- error of `assert np.intN(a) == a` for an operand that does not fit: NumPy raises `OverflowError`
+    for a Python int; for a wider NumPy scalar the cast wraps, the comparison fails: `AssertionError` -/
+def castErr (t : Ty) : Err := if t = .py then .overflow else .assert_
+theorem castErr_py : castErr .py = .overflow := rfl
+theorem castErr_i32 : castErr .i32 = .assert_ := rfl
+theorem castErr_i64 : castErr .i64 = .assert_ := rfl
+
 /-! ### monad -/
 theorem ebind_ok {ε α β} (a : α) (f : α → Except ε β) : (Except.ok a >>= f) = f a := rfl
 theorem ebind_err {ε α β} (e : ε) (f : α → Except ε β) : ((Except.error e : Except ε α) >>= f) = Except.error e := rfl
@@ -69,7 +80,7 @@ simproc_decl bindStep (Bind.bind _ _) := fun e => do
     return .done (← mkStep rhs pf)
   if x'.isAppOfArity ``ite 5 then
     let args := x'.getAppArgs
-    let pf ← mkAppOptM ``ebind_ite #[none, none, none, args[1]!, args[2]!, args[3]!, args[4]!, f]
+    let pf ← withDefault <| mkAppOptM ``ebind_ite #[none, none, none, args[1]!, args[2]!, args[3]!, args[4]!, f]
     let some (_, _, rhs) := (← inferType pf).eq? | return .continue
     return .visit (← mkStep rhs pf)
   -- stuck: keep the continuation unevaluated
@@ -109,6 +120,18 @@ theorem wrap_u32 (v : Int) (h : 0 ≤ v ∧ v ≤ 4294967295) : wrap .u32 v = v 
 
 theorem fits_eq_true (t : Ty) (v : Int) (h : t.fits v) : t.fits v = True := eq_true h
 theorem fits_eq_false (t : Ty) (v : Int) (h : ¬ t.fits v) : t.fits v = False := eq_false h
+
+theorem wrap_ne_self (t : Ty) (v : Int) (ht : t ≠ .py) (h : ¬ t.fits v) : wrap t v ≠ v := by
+  cases t <;> first | exact absurd rfl ht | (simp only [Ty.fits] at h; simp only [wrap]; omega)
+
+theorem wrap_eq_self (t : Ty) (v : Int) (ht : t ≠ .py) : (wrap t v = v) = t.fits v := by
+  apply propext
+  constructor
+  · intro h
+    by_cases hf : t.fits v
+    · exact hf
+    · exact absurd h (wrap_ne_self t v ht hf)
+  · exact wrap_id t v
 
 theorem wrap_fits (t : Ty) (v : Int) : t.fits (wrap t v) := by
   cases t <;> simp only [Ty.fits, wrap] <;> omega
@@ -266,7 +289,7 @@ open VelaVerif.PyRt in
 /-- side conditions of the rewrite rules: tag disequalities, range facts -/
 macro "py_side" : tactic =>
   `(tactic| first
-    | (simp only [ne_eq, reduceCtorEq, not_false_eq_true, Ty.fits, Ty.bits] <;> omega)
+    | (simp only [ne_eq, reduceCtorEq, not_false_eq_true, Ty.fits, Ty.bits, T3, or_true, true_or, or_self, wrap] <;> omega)
     | omega)
 
 open VelaVerif.PyRt in
@@ -274,10 +297,10 @@ open VelaVerif.PyRt in
 macro "py_exec" "[" defs:Lean.Parser.Tactic.simpLemma,* "]" : tactic =>
   `(tactic| simp (disch := py_side) only [$defs,*, ↓bindStep,
       bind_ok, bind_err, pure_eq, bind_ite, ebind_ok, ebind_err, epure_eq, ebind_ite, ethrow_eq, pyAssert_true, pyAssert_false, pyAssert_decide,
-      wrap_py, wrap_i8, wrap_i16, wrap_i32, wrap_i64, wrap_u8, wrap_u16, wrap_u32, coerce2_py_py, coerce2_py_np, coerce2_np_py, coerce2_np_np, promote,
+      castErr_py, castErr_i32, castErr_i64, wrap_eq_self, wrap_py, wrap_i8, wrap_i16, wrap_i32, wrap_i64, wrap_u8, wrap_u16, wrap_u32, coerce2_py_py, coerce2_py_np, coerce2_np_py, coerce2_np_np, promote,
       add_mk, sub_mk, mul_mk, and_mk, or_mk, xor_mk, floordiv_mk, mod_mk, shl_mk, shr_mk, pow_mk,
       neg_mk, pos_mk, invert_mk, abs_mk, int_mk, lt_mk, le_mk, gt_mk, ge_mk, eq_mk, ne_mk, truthy_mk,
-      min_mk, max_mk, cast_py, cast_np, fdiv_pos, fmod_pos,
+      min_mk, max_mk, cast_py, cast_np, fdiv_pos, fmod_pos, Ty.bits, iand_mask, iand_two_pow,
       ite_true, ite_false, if_true, if_false, fits_eq_true, fits_eq_false, true_and, and_true, and_self, not_true_eq_false, not_false_eq_true,
       Bool.and_eq_true, Bool.or_eq_true, Bool.not_eq_true', decide_eq_true_eq, decide_eq_false_iff_not, beq_iff_eq, bne_iff_ne,
       Bool.true_and, Bool.and_true, Bool.false_or, Bool.or_false, Bool.not_true, Bool.not_false,
@@ -297,5 +320,6 @@ macro "py_finish" : tactic =>
       | contradiction
       | omega
       | trivial
+      | (simp only [wrap] at * <;> omega)
       | (simp only [Except.ok.injEq, Except.error.injEq, Num.mk.injEq, true_and, and_true, reduceCtorEq,
           agrees_ok, agrees_err, agrees_ok_err, agrees_err_ok] <;> first | trivial | omega)))
